@@ -90,7 +90,7 @@ def EXHAUSTIVE(tier):
 
 
 def plan(tier, seed, avoid):
-    n = 80 if tier == "quick" else 1400
+    n = 80 if tier == "quick" else 4000
     specs = [{"part": "objgen", "shard": i, "n": n} for i in range(24 if tier == "quick" else 40)]
     for arch in CORPUS_ARCHES:
         specs.append({"part": "compiled", "arch": arch})
